@@ -154,6 +154,45 @@ def cases():
     add("TRIM(x, chars) keeps the trim characters", "trim_cast_varchar",
         mk(lambda o: node("Trim", "stmt", this=op(o, "x"), expression=op(o, "chars"))),
         lambda o, i: P("Trim", this=P("Cast", this=IS(o["x"])), expression=IS(o["chars"])), "TRIM(x, chars) removes the given characters, not whitespace")
+    # --- statement-level rewrites without a dedicated trace rule
+    def is_nop(v, path):
+        ok = isinstance(v, NodeV) and (getattr(v, "shared", False) or getattr(getattr(v, "copy_of", None), "shared", False)) and "SUCCESS_NOP" in v.name
+        return None if ok else f"{path} is `{getattr(v, 'tag', v)}`, expected the success no-op"
+
+    def is_true(v, path):
+        return None if isinstance(v, Const) and v.v is True else f"{path} is `{getattr(v, 'tag', v)}`, expected True"
+
+    for kind in ("SCHEMA",):  # (the parser upper-cases Drop.kind: a lower-case kind is not a feasible input)
+        add(f"DROP {kind} s -> DROP SCHEMA s CASCADE", "drop_schema_cascade", mk(lambda o, kind=kind: node("Drop", "stmt", kind=Const(kind), this=op(o, "s", table(None, "S")))),
+            lambda o, i: P("Drop", this=IS(o["s"]), cascade=is_true), "Snowflake drops a schema with its tables; DuckDB only with CASCADE")
+    add("DROP TABLE t is left alone", "drop_schema_cascade", mk(lambda o: node("Drop", "stmt", kind=Const("TABLE"), this=table("T"))), UNCHANGED,
+        "only schemas get CASCADE (a table with dependent views must not lose them silently)")
+    add("ALTER TABLE t CLUSTER BY (..) -> success no-op", "alter_table_strip_cluster_by",
+        mk(lambda o: node("Alter", "stmt", kind=Const("TABLE"), this=table("T"), actions=Lst([node("Cluster", expressions=Lst([S("c")]))]))),
+        lambda o, i: is_nop, "clustering keys have no DuckDB counterpart")
+    add("ALTER TABLE t ADD COLUMN .., CLUSTER BY (..) keeps the other action", "alter_table_strip_cluster_by",
+        mk(lambda o: node("Alter", "stmt", kind=Const("TABLE"), this=table("T"), actions=Lst([node("ColumnDef", this=S("b")), node("Cluster", expressions=Lst([S("c")]))]))),
+        UNCHANGED, "a statement that also does something else must not be turned into a no-op")
+    add("ALTER TABLE t SET TAG k='v' -> success no-op", "tag",
+        mk(lambda o: node("Alter", "stmt", kind=Const("TABLE"), this=table("T"), actions=Lst([node("AlterSet", tag=Lst([S("kv")]))]))),
+        lambda o, i: is_nop, "tags are not modelled")
+    add("ALTER TABLE t SET <other property> is not a tag statement", "tag",
+        mk(lambda o: node("Alter", "stmt", kind=Const("TABLE"), this=table("T"), actions=Lst([node("AlterSet", expressions=Lst([S("p")]))]))),
+        UNCHANGED, "only SET TAG is dropped")
+    add("CREATE TAG t -> success no-op", "tag", mk(lambda o: node("Create", "stmt", kind=Const("TAG"), this=table("TG"))),
+        lambda o, i: is_nop, "tags are not modelled")
+    add("ALTER TABLE .. modify column c set tag (Command) -> success no-op", "tag",
+        mk(lambda o: node("Command", "stmt", this=Const("ALTER"), expression=Const("table t modify column c set tag k='v'"))),
+        lambda o, i: is_nop, "the unparsed form is recognised in any letter case")
+    add("SELECT .. FROM (VALUES (a, b)) -> columns COLUMN1, COLUMN2", "values_columns",
+        mk(lambda o: (lambda vals: (node("Select", "stmt", expressions=Lst([node("Star")]), **{"from": node("From", this=vals)}), vals)[1])(
+            op(o, "vals", node("Values", expressions=Lst([node("Tuple", expressions=Lst([S("a"), S("b")]))]))))),
+        lambda o, i: P("Values", alias=P("TableAlias", columns=LIST(P("Identifier", this="COLUMN1", quoted=is_true), P("Identifier", this="COLUMN2", quoted=is_true)))),
+        "Snowflake names the columns of an unnamed VALUES COLUMN1..n (1-based, one per element of a row)")
+    add("VALUES with its own alias keeps it", "values_columns",
+        mk(lambda o: (lambda vals: (node("Select", "stmt", expressions=Lst([node("Star")]), **{"from": node("From", this=vals)}), vals)[1])(
+            node("Values", expressions=Lst([node("Tuple", expressions=Lst([S("a")]))]), alias=node("TableAlias", this=NodeV("Identifier", {"this": Const("V"), "quoted": Const(False)}, open=False))))),
+        UNCHANGED, "explicit column names win")
     return out
 
 
